@@ -186,6 +186,8 @@ impl Complete {
         depth: usize,
         is_argument: bool,
     ) {
+        // a description occupies a single line, same as the ones derived from help messages
+        let help = help.map(|h| h.lines().next().unwrap_or("").to_owned());
         self.comps.push(Comp::Value {
             body,
             is_argument,
